@@ -134,7 +134,8 @@ func ruleR05b(c *Check) {
 		}
 	}
 	for f := range region {
-		if f == ex.Complete {
+		// only the helpers on the way to the write matter (a shared bookkeeping helper may have other callers)
+		if f == ex.Complete || !c.G.ReachableFuncs([]*ssa.Function{f}, nil)[ex.Write] {
 			continue
 		}
 		for _, cf := range c.G.CallerFuncs(f) {
